@@ -46,6 +46,19 @@ type fakeRGB struct {
 	closedC int
 	// slow: delay before the answer to "how many controllers" — a server that is still detecting its devices
 	slow time.Duration
+	// the connections accepted so far (die() closes them: the server goes away while the device is in use)
+	open []net.Conn
+}
+
+// die: the OpenRGB server goes away — no new connections, the existing ones are closed
+func (f *fakeRGB) die() {
+	f.ln.Close()
+	f.mu.Lock()
+	for _, c := range f.open {
+		c.Close()
+	}
+	f.open = nil
+	f.mu.Unlock()
 }
 
 func orgbString(s string) []byte {
@@ -152,6 +165,7 @@ func startFakeRGB(devName string, hidraw int, leds []string, ncolors int) (*fake
 			}
 			f.mu.Lock()
 			f.conns++
+			f.open = append(f.open, c)
 			f.mu.Unlock()
 			go f.serve(c)
 		}
@@ -531,7 +545,12 @@ func runScript(s lifeScript, hid int, concurrent bool, withLeds bool) (out []str
 			}
 		}
 	}()
-	for _, e := range s.events {
+	for k, e := range s.events {
+		if concurrent && withLeds && hid%8 == 4 && k == len(s.events)/2 {
+			// the OpenRGB server goes away half-way; the device is used for a while longer and then unplugged
+			l.srv.die()
+			time.Sleep(150 * time.Millisecond)
+		}
 		ie := mkKey("", e[0], e[1])
 		if e[0] < 0 {
 			// an axis position (ABS_X)
@@ -591,7 +610,12 @@ func lifeRun(seed int64, n int, nextHid *int, aloneOnly bool) string {
 			if rng.Intn(3) == 0 {
 				st = 0x80
 			}
-			s.midiin = append(s.midiin, []byte{st | byte(rng.Intn(16)), byte(40 + rng.Intn(40)), byte(rng.Intn(2) * 64)})
+			m := []byte{st | byte(rng.Intn(16)), byte(40 + rng.Intn(40)), byte(rng.Intn(2) * 64)}
+			if rng.Intn(6) == 0 {
+				// controllers and channel-mode messages arrive on MIDI input as well (All Notes Off, All Sound Off, volume …)
+				m = []byte{0xb0 | byte(rng.Intn(16)), []byte{123, 120, 7, 64, 121}[rng.Intn(5)], byte(rng.Intn(2) * 127)}
+			}
+			s.midiin = append(s.midiin, m)
 		}
 		scripts = append(scripts, s)
 	}
